@@ -3,7 +3,7 @@ import vlib
 CFG = dict(
     imports=["From Verif.Common Require Import Labels Packet.", "From Verif.C29 Require Import Model Spec."],
     checker="check_case",
-    n=dict(quick=120, thorough=3000),
+    n=dict(quick=120, thorough=1440),
     shard=35,
     deps=["Common", "C06"],
     rule="per case: 3 namespaces with generated labels, 3-5 pods (labels, service account, named container ports, IPv4/IPv6; "
